@@ -499,9 +499,9 @@ theorem isFalseLit_truth (ρ : Env) (opq : Opaque) (e : Expr) (h : isFalseLit e 
   | _ => simp [isFalseLit] at h
 
 /-- non-vacuity: `not (b or c)` and `forall i in xs: (@i > 0 and b)` are split -/
-def sB : Expr := .field 1 (.this 64) "b"
-def sC : Expr := .field 1 (.this 64) "c"
-example : (splitAnd (.un 1 "not" (.bin 1 "or" sB sC))).toOption.map List.length = some 2 := by rfl
-example : (splitAnd (.quant 1 .all "i" (.field 8 (.this 64) "xs") (.bin 1 "and" (.bin 1 ">" (.var 2 "i") (.lit 2 "0" (.int 0))) sB))).toOption.map List.length = some 2 := by rfl
+def sB : Expr := .field T.BOOL (.this T.MESSAGE) "b"
+def sC : Expr := .field T.BOOL (.this T.MESSAGE) "c"
+example : (splitAnd (.un T.BOOL "not" (.bin T.BOOL "or" sB sC))).toOption.map List.length = some 2 := by rfl
+example : (splitAnd (.quant T.BOOL .all "i" (.field T.ARRAY (.this T.MESSAGE) "xs") (.bin T.BOOL "and" (.bin T.BOOL ">" (.var T.NUMBER "i") (.lit T.NUMBER "0" (.int 0))) sB))).toOption.map List.length = some 2 := by rfl
 
 end Hpl
